@@ -215,3 +215,110 @@ def assert3(cfg):
         res.count('initialiser loops [%s]' % site['name'], n)
         res.floor('initialiser loops [%s]' % site['name'], 2)
     return res
+
+
+# ---- ASSERT-5: relations between the statistics counters asserted by the accounting functions ----
+# counter pair (unordered) -> reachable valuations at the assertion (frozen after reading the accounting code; one reason each)
+COUNTER_WITNESSES = {
+    frozenset(('shrinking_inode_counts', 'growing_inode_counts')): {
+        'at': 'account_shrinking_inode, after ++shrinking',
+        'states': [{'shrinking_inode_counts': 1, 'growing_inode_counts': 1}, {'shrinking_inode_counts': 1, 'growing_inode_counts': 2},
+                   {'shrinking_inode_counts': 2, 'growing_inode_counts': 2}, {'shrinking_inode_counts': 2, 'growing_inode_counts': 3}],
+        'why': 'a node class grown into once and shrunk out of once (insert 5 keys under one node, remove one) gives 1/1; growing two nodes and shrinking one or both gives 1/2, 2/2; a third growth 2/3'},
+    frozenset(('growing_inode_counts', 'node_counts')): {
+        'at': 'account_growing_inode, after ++growing (the node itself was counted at creation)',
+        'states': [{'growing_inode_counts': 1, 'node_counts': 1}, {'growing_inode_counts': 2, 'node_counts': 1},
+                   {'growing_inode_counts': 2, 'node_counts': 2}, {'growing_inode_counts': 3, 'node_counts': 1}],
+        'why': 'the first node of a class gives 1/1; grow, shrink back, grow again gives 2/1 and 3/1; two live nodes 2/2'},
+    frozenset(('growing_inode_counts', 'key_prefix_splits')): {
+        'at': 'prefix-split branch of the insert, after both increments',
+        'states': [{'growing_inode_counts': 2, 'key_prefix_splits': 1}, {'growing_inode_counts': 3, 'key_prefix_splits': 1},
+                   {'growing_inode_counts': 3, 'key_prefix_splits': 2}],
+        'why': 'a prefix split needs an inner node that exists already (created by a leaf split: one I4 growth that is not a prefix split): first split 2/1, second 3/2, a split after two leaf splits 3/1'},
+}
+_COUNTERS = set().union(*COUNTER_WITNESSES)
+
+
+def _counter_eval(f, o, env, used, depth=0):
+    """value of an assertion condition over a valuation of the statistics counters; None = not a pure counter expression"""
+    e = f.resolve(o)
+    if not isinstance(e, dict) or depth > 30:
+        return None
+    k = e.get('k')
+    if k == 'int':
+        return int(e['v'])
+    if k == 'bool':
+        return 1 if e.get('v') else 0
+    if k == 'member' and e.get('name') in _COUNTERS:
+        used.add(e['name'])
+        return env.get(e['name'])
+    if k == 'call' and e.get('op') == '[]' and e.get('args'):
+        b = f.resolve(e['args'][0])
+        if isinstance(b, dict) and b.get('k') == 'member' and b.get('name') in _COUNTERS:
+            used.add(b['name'])
+            return env.get(b['name'])
+        return None
+    if k == 'cast':
+        return _counter_eval(f, e['sub'], env, used, depth + 1)
+    if k == 'unop' and e.get('op') == '!':
+        v = _counter_eval(f, e['sub'], env, used, depth + 1)
+        return None if v is None else (0 if v else 1)
+    if k == 'binop':
+        l, r = _counter_eval(f, e['l'], env, used, depth + 1), _counter_eval(f, e['r'], env, used, depth + 1)
+        if l is None or r is None:
+            return None
+        op = e['op']
+        table = {'<': l < r, '<=': l <= r, '>': l > r, '>=': l >= r, '==': l == r, '!=': l != r, '&&': bool(l and r), '||': bool(l or r)}
+        if op in table:
+            return 1 if table[op] else 0
+        if op == '+':
+            return l + r
+        if op == '-':
+            return l - r
+        return None
+    return None
+
+
+def assert5(cfg):
+    from ..forwarders import is_assert_elem
+    res = RuleResult('ASSERT-5', 'the relations between statistics counters that the accounting code asserts (shrinking <= growing per node class, growing >= live nodes per class, I4 growths > key-prefix splits) hold on the reachable counter valuations listed per counter pair (each obtained by a short legal operation sequence, reason in the table): the asserted condition is evaluated on every listed valuation. A relation that is one step too strict (`<` for `<=`: a class grown into once and shrunk out of once has equal counts) aborts an assertion-enabled build on a legal removal that the release build performs correctly')
+    if '-debug-' not in cfg.name or '-stats-' not in cfg.name:
+        res.note('assertion-enabled configurations with statistics only')
+        return res
+    sites = set()
+    for f in cfg.functions:
+        if not f.blocks or not re.match(r'^unodb::(db|olc_db|detail::)', f.cls or f.sig):
+            continue
+        for b, i, e in f.elements():
+            if e.get('k') != 'cond' or not is_assert_elem(e):
+                continue
+            used = set()
+            if _counter_eval(f, e['c'], {}, used) is not None or len(used) < 2:
+                continue
+            pair = COUNTER_WITNESSES.get(frozenset(used))
+            site = fileline(e.get('loc'))
+            if pair is None:
+                res.incompl('ASSERT-5: %s asserts a relation between %s, a counter pair with no witness table' % (site, sorted(used)))
+                continue
+            bad = None
+            for env in pair['states']:
+                u2 = set()
+                v = _counter_eval(f, e['c'], env, u2)
+                if v is None:
+                    bad = ('unevaluable', env)
+                    break
+                if not v:
+                    bad = ('false', env)
+                    break
+            if bad and bad[0] == 'unevaluable':
+                res.incompl('ASSERT-5: the assertion at %s could not be evaluated over its counters' % site)
+                continue
+            sites.add((site.split(':')[-1] if False else site))
+            res.functions.add(f.sig)
+            ok = bad is None
+            res.ob(ok, {'rule': 'ASSERT-5', 'function': sh(f.sig)[:100], 'site': site, 'counters': sorted(used), 'valuations evaluated': len(pair['states']), 'reachable because': pair['why'], 'verdict': 'discharged' if ok else 'VIOLATION'})
+            if not ok:
+                res.find(f, e.get('loc'), '%s: the asserted relation between %s is false for the reachable valuation %s (%s; %s) - the assertion-enabled build aborts on legal usage that the release build performs correctly' % (f.short, ' and '.join(sorted(used)), ', '.join('%s = %d' % kv for kv in sorted(bad[1].items())), pair['at'], pair['why']), key='ASSERT-5:%s:%s' % (f.short, '/'.join(sorted(used))), config=cfg.name)
+    res.count('counter-relation assertion sites', len(sites))
+    res.floor('counter-relation assertion sites', 3)
+    return res
